@@ -86,6 +86,22 @@ fn literal(src: &mut Src, st: &mut Stats, _env: &Env) -> CaseResult {
         ImpOut::Ok(g) if g.exact_eq(&v) || (g.deep_eq(&v) && !matches!(v, J::Num(N::Int(_)))) => {}
         other => return Err(Failure::new("literal", "literal-wrong-value", format!("gave {} expected {}", other.brief(), v.to_json()), case)),
     }
+    // the same characters as a raw string, a JSON literal and a quoted identifier in ONE
+    // expression: each delimiter keeps its own meaning
+    if !txt.contains(|c| c == '\'' || c == '`' || c == '\\' || c == '"') && !txt.trim().is_empty() {
+        let both = format!("[`{}`, '{}', `{}`, '{}']", txt, txt, txt, txt);
+        let case = json!({"expression": both, "json": txt});
+        match search_text(&both, "0") {
+            ImpOut::Ok(J::Arr(a)) if a.len() == 4 => {
+                let ok = (a[0].exact_eq(&v) || a[0].deep_eq(&v)) && a[2].deep_eq(&a[0]) && matches!(&a[1], J::Str(s) if s == &txt) && matches!(&a[3], J::Str(s) if s == &txt);
+                if !ok {
+                    return Err(Failure::new("literal", "delimiter-kinds-confused", format!("gave {}", J::Arr(a.clone()).to_json()), case));
+                }
+            }
+            other => return Err(Failure::new("literal", "delimiter-kinds-confused", other.brief(), case)),
+        }
+        st.class("literal:same-text-both-delimiters");
+    }
     if interesting(&txt) && st.nontrivial(&text) {
         st.sample(|| json!({"expression": text}));
     }
